@@ -167,4 +167,5 @@ def harnesses(tier):
     cases = [dict(n=1, kind="empty"), dict(n=1, kind="unitary"), dict(n=2, kind="empty"), dict(n=2, kind="unitary"), dict(n=2, kind="cnot"), dict(n=2, kind="cz_heralded")]
     if tier != "quick":
         cases += [dict(n=3, kind="empty"), dict(n=3, kind="ccz")]
-    return [("state-tomography", h_state_tomography, cases, dict(max_seconds=1500))]
+    return [("state-tomography", h_state_tomography, cases, dict(max_seconds=1500)),
+            ("state-tomography.raw", h_state_tomography, [c for c in cases if c["n"] == 1], dict(raw=True))]
